@@ -32,7 +32,7 @@ theorem verdict_company_independent (blocks : List (Nat × Bytes)) (filesize : I
       (env := { strs := small[i].strs, blocks, filesize, ext, rules := List.take i (evalRules blocks filesize ext small []) })
       (env' := { strs := small[i].strs, blocks, filesize, ext,
                  rules := List.take (pos i) (evalRules blocks filesize ext big []) })
-      ⟨rfl, rfl, rfl, rfl, rfl, rfl⟩ pos _ _ ?_
+      ⟨rfl, rfl, rfl, rfl, rfl, rfl, rfl⟩ pos _ _ ?_
     intro k hk
     have hki : k < i := B i hi k hk
     have hpk : pos k < pos i := E.mono k i hki hi
@@ -58,7 +58,7 @@ theorem verdict_alone (blocks : List (Nat × Bytes)) (filesize : Int) (ext : Lis
   have := eval_rename (env := { strs := r.strs, blocks, filesize, ext, rules := List.take 0 (evalRules blocks filesize ext [r] []) })
     (env' := { strs := r.strs, blocks, filesize, ext,
                rules := List.take before.length (evalRules blocks filesize ext (before ++ r :: after) []) })
-    ⟨rfl, rfl, rfl, rfl, rfl, rfl⟩ id r.cond {} (by rw [hr]; intro k hk; cases hk)
+    ⟨rfl, rfl, rfl, rfl, rfl, rfl, rfl⟩ id r.cond {} (by rw [hr]; intro k hk; cases hk)
   rw [← this]
   congr 1
   exact (renameRules_id r.cond).symm
